@@ -307,8 +307,16 @@ func c09r4(r *R) {
 			want[refName(sc)] = true
 			recv := describe(refArgs(c.Common())[0])
 			isPeer := recv == "$0.peer"
-			if fn != pf { // closure: receiver is free var r
+			if host := c.Parent(); fn != pf || host != pf { // closure: receiver is free var r - or what a method value's carrier struct was given
 				isPeer = strings.HasSuffix(recv, ".peer") && strings.HasPrefix(recv, "^")
+				var k int
+				if n, _ := fmt.Sscanf(recv, "^%d", &k); n == 1 {
+					if b := closureBindings(host); k < len(b) {
+						if res := b[k] + strings.TrimPrefix(recv, fmt.Sprintf("^%d", k)); res == "$0.peer" {
+							isPeer = true
+						}
+					}
+				}
 			}
 			if id, ok := map[string]string{"updateTableSize": "1", "updateInitialWindowSize": "4", "updateMaxFrameSize": "5"}[refName(sc)]; ok {
 				val := describe(refArgs(c.Common())[1])
@@ -516,9 +524,29 @@ func c09r6(r *R) {
 			switch {
 			case sn == "martian/h2.queuedDataFrame" && f == "data":
 				good := false
-				for _, m := range dataMakes {
-					if st.Val == m {
-						good = true
+				vals := []ssa.Value{st.Val}
+				// the clamped copy may be made by a helper split out of the loop: what that helper returns
+				if ex, ok := st.Val.(*ssa.Extract); ok {
+					if hc, ok := ex.Tuple.(*ssa.Call); ok {
+						if g := staticCallee(hc.Common()); g != nil && isNewHelper(g) {
+							vals = returnValues(g, ex.Index)
+						}
+					}
+				} else if hc, ok := st.Val.(*ssa.Call); ok {
+					if g := staticCallee(hc.Common()); g != nil && isNewHelper(g) {
+						vals = returnValues(g, 0)
+					}
+				}
+				for _, v := range vals {
+					isMake := false
+					for _, m := range dataMakes {
+						if v == ssa.Value(m) {
+							isMake = true
+						}
+					}
+					good = isMake
+					if !isMake {
+						break
 					}
 				}
 				r.check(good && fn == data, fname(fn)+"#store(queuedDataFrame.data)", st.Pos(), "payload is the clamped copy", "queued DATA payload "+describe(st.Val)+" is not the slice clamped to maxFrameSize")
@@ -1221,7 +1249,7 @@ func c10r10(r *R) {
 func c10r7(r *R) {
 	// preface constant
 	p := r.pkg(h2pkg)
-	g, _ := p.Members["connectionPreface"].(*ssa.Global)
+	g, _ := refGlobal(p, "connectionPreface"), true
 	if g == nil {
 		r.missing("h2.connectionPreface")
 	}
